@@ -283,12 +283,28 @@ ScriptFast == <<{"Scrape"}, {"Tick", "Scrape", "Restart"}, {"Scrape", "EvictSel"
 \* out-of-order chunks left in the head-chunk files, series gc, checkpoint, restarts (DESIGN H10)
 ScriptOOO == <<{"Scrape"}, {"Scrape"}, {"OOO"}, {"Scrape", "Mmap", "OOO"}, {"Cut", "Mmap"}, {"CompactHead"}, {"CompactOOO"}, {"Cut"},
                {"Scrape", "Cut"}, {"CompactHead"}, {"Restart"}, {"Scrape"}, {"Restart"}, {"Scrape"}>>
+\* the route of DESIGN H10: a retired ref whose out-of-order chunk is still in a head-chunk file is re-issued and the
+\* chunk is attached to the new series by the restart after that
+ScriptH10 == <<{"Scrape"}, {"Scrape"}, {"OOO"}, {"CompactHead"}, {"CompactOOO"}, {"Cut"}, {"Cut"}, {"Scrape"}, {"CompactHead"},
+               {"Restart"}, {"Scrape"}, {"Restart"}>>
 \* shortest routes to the two known findings
 ScriptKF == <<{"Scrape"}, {"Restart"}, {"Scrape", "EvictSel"}, {"Restart"}, {"Scrape"}>>
 
 Subsets == IF ScrapeSets = {} THEN (SUBSET Labs) \ {{}} ELSE ScrapeSets
 
-Allowed == IF nops < Len(Script) THEN Script[nops + 1] ELSE Acts
+\* the action kinds that can fire at all in the current state (cheap approximations of the guards): a scripted step whose
+\* kinds are all impossible falls back to the free alphabet instead of ending the history
+Possible ==
+  {"Scrape", "Cross", "Cut", "Restart", "Crash"}
+  \cup (IF \E l \in Labs : ser[l].ex /\ (\E c \in ser[l].ch : c.f = 0) /\ (\E d \in OOOBack : clk - d >= 1 /\ clk - d < MaxOr({x.t : x \in UNION {c.s : c \in ser[l].ch}}, NEG)
+                                         /\ clk - d \notin {x.t : x \in UNION {c.s : c \in ser[l].ch} \cup ser[l].ooh \cup UNION {c.s : c \in ser[l].oom}}) THEN {"OOO"} ELSE {})
+  \cup (IF \E l \in Labs : ser[l].ex /\ Cardinality({c \in ser[l].ch : c.f = 0}) >= 2 THEN {"Mmap"} ELSE {})
+  \cup (IF hMin # INF /\ hMin < hMax THEN {"CompactHead"} ELSE {})
+  \cup (IF \E l \in Labs : ser[l].ex /\ (ser[l].ooh # {} \/ ser[l].oom # {}) THEN {"CompactOOO"} ELSE {})
+  \cup (IF hMin # INF /\ \E l \in Labs : ser[l].ex /\ ser[l].ooh = {} /\ ser[l].oom = {} THEN {"EvictSel"} ELSE {})
+  \cup (IF hMin # INF /\ \E l \in Labs : ser[l].ex /\ ser[l].ls /\ ser[l].ooh = {} /\ ser[l].oom = {} THEN {"EvictStale"} ELSE {})
+  \cup (IF fastOn THEN {"Tick"} ELSE {})
+Allowed == IF nops < Len(Script) /\ Script[nops + 1] \cap Possible # {} THEN Script[nops + 1] ELSE Acts
 
 -----------------------------------------------------------------------------
 (* Digest of the state for the drift comparison by the harness *)
@@ -493,7 +509,7 @@ EvictStale == /\ "EvictStale" \in Allowed
 
 Cut ==
   /\ "Cut" \in Allowed
-  /\ Len(segs[Len(segs)]) > 0
+  /\ Len(segs) < 8                     \* (bound)
   /\ segs' = Append(segs, <<>>)
   /\ UNCHANGED <<mvars, first, cp, wbl, files, blk, blkMax, snap, sst, clk, cn, kfset>>
   /\ Step([a |-> "Cut"])
@@ -725,6 +741,11 @@ RightLabels ==
   /\ \A l \in Vis(ser, byRef) : \A x \in AllOf(l) : l \in x.o
   /\ \A p \in blk : p[1] \in p[2].o
 
+\* (what the property demands, without the known-finding waiver: used to exhibit the findings in the model)
+RightLabelsRaw ==
+  /\ \A l \in Vis(ser, byRef) : \A x \in AllOf(l) : l \in x.o
+  /\ \A p \in blk : p[1] \in p[2].o
+
 \* NoReuse: a ref bound to a series is not carried for another label set by any record, chunk, snapshot or caller
 NoReuse ==
   kfset # {} \/ \A r \in DOMAIN byRef : ~Conflict(r, byRef[r])
@@ -769,7 +790,8 @@ Class ==
   ELSE IF r.a \in {"EvictSel", "EvictStale"} THEN <<r.a, Len(r.S), cp.idx >= 0, kfset # {}>>
   ELSE IF r.a \in {"Restart", "Crash"} THEN
        <<r.a, r.fast, fastOn, sst.ok, sst.clean, snap.ok, lastID' < lastID, lastID' = lastID,
-         DOMAIN byRef' = DOMAIN byRef, cp.idx >= 0, DOMAIN files # {}, wbl # <<>>, DOMAIN exp' # {}, KeptBy, kfset # {}>>
+         DOMAIN byRef' = DOMAIN byRef, cp.idx >= 0, DOMAIN files # {}, wbl # <<>>, DOMAIN exp' # {}, KeptBy, kfset # {},
+         \A l \in Vis(ser', byRef') : \A x \in Ino(ser'[l]) \cup OooAll(ser'[l]) : l \in x.o>>
   ELSE <<r.a>>
 
 Emit ==
